@@ -179,10 +179,10 @@ def run_case(case, reports=False, keep_objects=False):
             events.append(_ev("step", el=sid, pos=pos, outcome=o, att=att, **probe(ctx)))
             print("O%d_%d" % (sid, pos))
             print("E%d_%d" % (sid, pos), file=sys.stderr)
+            logging.getLogger("verif").warning("L%d_%d", sid, pos)
             if cfg.get("chatty") and pos == 1:
                 for _i in range(1001):          # more records than the capture handler's nominal capacity
                     logging.getLogger("verif.filler").warning("filler %d", _i)
-            logging.getLogger("verif").warning("L%d_%d", sid, pos)
             ctx.sv = sid
             if s["cl_id"]:
                 cid, raises = s["cl_id"], s["cl_raises"]
@@ -330,6 +330,9 @@ def run_case(case, reports=False, keep_objects=False):
                     # an observing hook: reads the status of the running feature (must not change any result)
                     getattr(ctx.feature, "status", None)
                 if raised:
+                    if fault_kind == "kbd":
+                        # (not modelled by Run.tla: only for checks that judge final statuses / reports)
+                        raise KeyboardInterrupt()
                     if fault_kind == "assert":
                         raise AssertionError("hookfault%d" % hookn[0])
                     raise RuntimeError("hookfault%d" % hookn[0])
